@@ -126,6 +126,18 @@ func buildPtr(seg *capnp.Segment, e *sexp) capnp.Ptr {
 			return l.ToPtr()
 		}
 		panic("bad width")
+	case "C": // composite list: all elements (s,data,ptrs...) of one size
+		xs := e.items[1:]
+		var sz capnp.ObjectSize
+		if len(xs) > 0 {
+			sz = capnp.ObjectSize{DataSize: capnp.Size(len(Unhx(xs[0].items[1].atom))), PointerCount: uint16(len(xs[0].items) - 2)}
+		}
+		l, err := capnp.NewCompositeList(seg, sz, int32(len(xs)))
+		must(err)
+		for i, x := range xs {
+			fillStruct(seg, l.Struct(i), x)
+		}
+		return l.ToPtr()
 	case "l":
 		xs := e.items[1:]
 		composite := len(xs) > 0
